@@ -89,3 +89,32 @@ func TestRoundTripReport(t *testing.T) {
 		t.Logf("%4d  %s", n, k)
 	}
 }
+
+// A record with permuted field order must still be a well-formed record: the
+// real decoder accepts it, under every configuration.
+func TestPermuteFieldsWellFormed(t *testing.T) {
+	for _, cfg := range Configs {
+		for _, ti := range TypeList {
+			if ti.Bad || !ti.Top || !ShapeOK(ti, cfg) {
+				continue
+			}
+			for seed := uint64(1); seed <= 120; seed++ {
+				r := engine.PRNG{S: engine.Mix(seed, 9)}
+				v := Gen(ti.T, &r, GenOpts{Size: 5 + int(seed%30)})
+				p := NewInstance(cfg)
+				data, err := p.Marshal(nil, v.Addr().Interface())
+				if err != nil {
+					t.Fatal(err)
+				}
+				perm, changed := PermuteFields(ti.T, data, r.Intn, false)
+				if !changed {
+					continue
+				}
+				out := reflect.New(ti.T)
+				if err := p.Unmarshal(perm, out.Interface()); err != nil {
+					t.Fatalf("%s %v seed %d: permuted record does not decode: %v\n%x\n%x", ti.Name, cfg, seed, err, data, perm)
+				}
+			}
+		}
+	}
+}
